@@ -321,12 +321,16 @@ PROPS["C18"] = {
     "level_text": ("histories of stream and consumer-group operations (create/delete/pause/resume/read-only/join/leave) through the API of a started single-node server with the activity stream enabled, "
                    "interleaved with windows in which publishing to __activity fails (the stream is set read-only, so the dispatcher backs off and retries) and with server restarts (also inside such a window); "
                    "ground truth is the committed Raft log read back from the store: every event-producing operation has at least one event, event id = its Raft index, content equals the operation, "
-                   "first occurrences appear in strictly increasing id order, a redelivery is identical to the first delivery, no event without an operation; bounded liveness: the dispatcher catches up within 45 s after the last fault"),
-    "level_note": "single node: the controller change is a restart of the only controller (resume from the replicated last-published index); a 3-node controller failover is not driven",
-    "rule": "rapid draws 4-14 operations with up to two fault windows/restarts. Non-trivial = the history contains at least one publish-failure window or restart (so a retry or a resume from the recorded index happened).",
+                   "first occurrences appear in strictly increasing id order, a redelivery is identical to the first delivery, no event without an operation; bounded liveness: the dispatcher catches up within 45 s after the last fault. "
+                   "Unit C18c runs the same operations and the same oracle on a started 3-server cluster (real Raft between the servers, real failure detectors, 3-replica activity partition): the current controller is stopped (up to twice per history), "
+                   "operations continue on the newly elected controller while one server is down, the stopped server comes back; the Raft log is read from the final controller and the events from the final leader of the activity partition (90 s bound)"),
+    "level_note": "C18: single node, the controller change is a restart of the only controller; C18c: controller failover between brokers, 8 histories in quick (seconds each), so tens of histories, not thousands; no network partition (a deposed controller that keeps running) is driven",
+    "rule": "rapid draws 4-14 operations with up to two fault windows/restarts. Non-trivial = the history contains at least one publish-failure window or restart (so a retry or a resume from the recorded index happened). C18c: 6-20 operations with up to two controller failovers; non-trivial = at least one failover.",
     "assumptions": TRUST,
     "units": [
         {"name": "C18", "pkg": "server", "test": "TestVerifC18",
          "quick": {"shards": 8, "checks": 4, "timeout": 400}, "thorough": {"shards": 16, "checks": 60, "timeout": 3000}},
+        {"name": "C18c", "pkg": "server", "test": "TestVerifC18c",
+         "quick": {"shards": 4, "checks": 2, "timeout": 600}, "thorough": {"shards": 8, "checks": 12, "timeout": 3000}},
     ],
 }
